@@ -215,6 +215,19 @@ pub fn sign_with(signed: &J, keys: &[usize]) -> J {
     envelope(signed.clone(), sigs)
 }
 
+/// Like `sign_with`, but signs the bytes the code under test derives when its canonical form
+/// differs from the reference (only where signatures are not what is being judged and the document
+/// contains exotic member names).
+pub fn sign_with_sut_canon(signed: &J, keys: &[usize]) -> J {
+    let msg = signed_bytes(signed);
+    let sut = crate::json::olpc_canon(&signed.to_serde()).unwrap_or_else(|_| msg.clone());
+    let sigs = keys
+        .iter()
+        .map(|k| sig_entry(&key(*k).id(), &crate::keys::cached_sign(*k, &sut)))
+        .collect();
+    envelope(signed.clone(), sigs)
+}
+
 // ---------------------------------------------------------------------------------------------
 
 #[derive(Clone, Debug)]
